@@ -538,3 +538,79 @@ Proof.
   - split; discriminate.
   - vm_compute. reflexivity.
 Qed.
+
+(* ================================================================ Round 6 ==== *)
+From AIT Require Import C14.SpecSparse C14.ProofsSparse.
+
+(* SparseCooperativeQLearning: the value the rule set assigns to a joint (s,a) — accumulate the values of
+   rules_.filter(join(s,a)) — is the flat expansion: the sum over ALL rules of (value if it matches, else 0) *)
+Theorem sparse_coop_flat_value : forall rules s a, (sparse_qvalue rules s a == flatQ rules s a)%Q.
+Proof. exact sparse_coop_flat_value_lemma. Qed.
+Print Assumptions sparse_coop_flat_value.
+
+(* stepUpdateQ(s,a,s1,rew) with a1 = the action the greedy policy returned for s1: keys/values of every rule
+   are kept; every rule matching (s,a) grows by exactly the sum over the agents of its action tag of
+   td_share (= alpha * (rew[j]/#before-rules containing j + sum_{after rules containing j} discount*value/|tag|
+   - sum_{before rules containing j} value/|tag|)); every other rule is untouched *)
+Theorem sparse_coop_update_spec : forall nA alpha gamma rules s a s1 a1 rew,
+  length rew = nA ->
+  (forall r, In r rules -> rule_matches r s a = true -> Forall (fun ag => ag < nA) (rAK r)) ->
+  Forall2 (fun r r' =>
+             rSK r' = rSK r /\ rSV r' = rSV r /\ rAK r' = rAK r /\ rAV r' = rAV r /\
+             if rule_matches r s a
+             then (rVal r' == rVal r + qsum (map (td_share alpha gamma rules s a s1 a1 rew) (rAK r)))%Q
+             else r' = r)
+          rules (sparse_step nA alpha gamma rules s a s1 a1 rew).
+Proof. exact sparse_coop_update_spec_lemma. Qed.
+Print Assumptions sparse_coop_update_spec.
+
+(* when exactly one rule matches (s,a) and one matches (s1,a1), both with the action tag of all agents
+   (a table in disguise), the step is QLearning's: Q(s,a) += alpha * (sum rew + discount * Q(s1,a1) - Q(s,a))
+   on the flat expansion, nothing else moves (Q(s1,a1) is the row maximum when a1 is greedy) *)
+Theorem sparse_coop_single_rule_eq_qlearning : forall nA alpha gamma rules s a s1 a1 rew r0 r1,
+  0 < nA -> length rew = nA ->
+  filter (fun r => rule_matches r s a) rules = [r0] ->
+  filter (fun r => rule_matches r s1 a1) rules = [r1] ->
+  rAK r0 = seq 0 nA -> rAK r1 = seq 0 nA ->
+  Forall2 (fun r r' =>
+             if rule_matches r s a
+             then r = r0 /\ (rVal r' == flatQ rules s a + alpha * (qsum rew + gamma * flatQ rules s1 a1 - flatQ rules s a))%Q
+             else r' = r)
+          rules (sparse_step nA alpha gamma rules s a s1 a1 rew).
+Proof. exact sparse_coop_single_rule_eq_qlearning_lemma. Qed.
+Print Assumptions sparse_coop_single_rule_eq_qlearning.
+
+Example ex_sparse_nonvacuous :
+  let rules := [mkRule [0] [0] [0] [1] 1%Q; mkRule [0] [0] [0;1] [1;0] 2%Q; mkRule [] [] [1] [1] 4%Q] in
+  (forall r, In r rules -> rule_matches r [0] [1;0] = true -> Forall (fun ag => ag < 2) (rAK r)) /\
+  let s := [0] in let a := [1;0] in let a1 := [1;1] in
+  (flatQ rules s a == 3)%Q /\
+  (td_share (1#2) (1#2) rules s a s a1 [2;6]%Q 0 == (1#2) * (2 / 2 + (1#2) * 1 / 1 - (1 / 1 + 2 / 2)))%Q /\
+  map rVal (sparse_step 2 (1#2) (1#2) rules s a s a1 [2;6]%Q) = [3#4; 21#4; 4]%Q.
+Proof.
+  cbv zeta. split; [|split; [|split]].
+  - intros r [<-|[<-|[<-|[]]]] _; repeat constructor.
+  - vm_compute. reflexivity.
+  - vm_compute. reflexivity.
+  - vm_compute. reflexivity.
+Qed.
+
+Example ex_sparse_single_nonvacuous :
+  let r0 := mkRule [0] [0] [0;1] [0;0] 1%Q in let r1 := mkRule [0] [1] [0;1] [1;1] 5%Q in
+  filter (fun r => rule_matches r [0] [0;0]) [r0; r1] = [r0] /\
+  filter (fun r => rule_matches r [1] [1;1]) [r0; r1] = [r1] /\ rAK r0 = seq 0 2 /\ rAK r1 = seq 0 2.
+Proof. cbv zeta. repeat split. Qed.
+
+(* toIndex(space, PartialFactors): for strictly increasing in-range keys (one value per key) the result is
+   sum over the keys of value * (product of the sizes of ALL lower-numbered factors) — the index of the full
+   vector that is 0 outside the keys *)
+Theorem toIndexPF_spec : forall space pk pv,
+  strict pk -> Forall (fun k => k < length space) pk -> length pv = length pk ->
+  toIndexPF space pk pv = pf_index space pk pv.
+Proof. exact toIndexPF_spec_lemma. Qed.
+Print Assumptions toIndexPF_spec.
+
+Example ex_toIndexPF_nonvacuous :
+  strict [0;2] /\ Forall (fun k => k < length [2;3;4]) [0;2] /\ toIndexPF [2;3;4] [0;2] [1;3] = 19 /\
+  pf_index [2;3;4] [0;2] [1;3] = 19.
+Proof. split; [repeat constructor|split; [repeat constructor|split; reflexivity]]. Qed.
